@@ -207,7 +207,7 @@ def check_property(prop, tier, base_seed):
         "sim_time": 0.0, "consults": 0, "permuted": 0, "skipped": 0, "shrink_runs": 0,
     }
     digests = set()
-    case_pool = []
+    pools, samples = {}, {}  # by batch index: completion order must not matter
     failure = None
     harness = None
     batches_done = 0
@@ -221,8 +221,9 @@ def check_property(prop, tier, base_seed):
         failure = {"case": entry["case"], "label": res[0], "message": res[1] +
                    f" [witness of finding {entry['id']}]", "batch": -1, "batch_seed": 0}
         n_batches = 0
+    pool = cf.ProcessPoolExecutor(max_workers=WORKERS, mp_context=ctx)
     try:
-        with cf.ProcessPoolExecutor(max_workers=WORKERS, mp_context=ctx) as pool:
+        if True:
             while True:
                 while (
                     next_batch < n_batches
@@ -257,26 +258,46 @@ def check_property(prop, tier, base_seed):
                         for name, n in res[k].items():
                             agg[k][name] = agg[k].get(name, 0) + n
                     digests.update(res["digests"])
-                    case_pool.extend(res["pool"])
-                    if len(agg["samples"]) < 3:
-                        agg["samples"].extend(res["samples"][: 3 - len(agg["samples"])])
+                    pools[bidx] = res["pool"]
+                    samples[bidx] = res["samples"]
                     if res["slowest_s"] > agg.get("slowest_s", 0):
                         agg["slowest_s"] = res["slowest_s"]
                         agg["slowest_case"] = res["slowest_case"]
                     if res["harness_error"] and harness is None:
                         harness = f"batch {bidx} seed {bseed}: {res['harness_error']}"
-                    if res["failure"] and failure is None:
+                    if res["failure"]:
                         fail = res["failure"]
                         kid = known_cases.get(case_digest(fail["case"]))
-                        if kid is None:
+                        # batches finish in a timing-dependent order: report the failing batch
+                        # with the lowest index, so that one VERIF_SEED names one violation
+                        if kid is None and (failure is None or bidx < failure["batch"]):
                             failure = dict(fail, batch=bidx, batch_seed=bseed)
-                if failure is not None or harness is not None:
+                if harness is not None:
                     for fut in pending:
                         fut.cancel()
                     break
+                if failure is not None:
+                    for fut, (bidx, _) in list(pending.items()):
+                        if bidx > failure["batch"] and fut.cancel():
+                            pending.pop(fut)
+                    if not any(bidx < failure["batch"] for bidx, _ in pending.values()):
+                        for fut in pending:
+                            fut.cancel()
+                        break
     except cf.process.BrokenProcessPool as exc:
         harness = f"worker died (watchdog or crash): {exc!r}"
+    finally:
+        # the verdict is decided: batches still running (all of a higher index than the reported
+        # one) are not waited for
+        for proc in list((getattr(pool, "_processes", None) or {}).values()):
+            if pending:
+                proc.terminate()
+        pool.shutdown(wait=not pending, cancel_futures=True)
 
+    case_pool = [case for bidx in sorted(pools) for case in pools[bidx]]
+    # one sample from each of the first batches (they are different swarm configurations)
+    for bidx in sorted(samples):
+        agg["samples"].extend(samples[bidx][:1])
     if failure is None and harness is None and hasattr(engine, "post_phase"):
         try:
             post = engine.post_phase(pid, tier, base_seed, case_pool)
